@@ -17,6 +17,7 @@ QUICK_CONFIGS="
 1 Up 1 0 0
 3 Floor 9 40 5
 34 HalfDown 5 2 1000
+250 Ceiling 5 15 5
 "
 # covering array: every value of every parameter and every (precision, mode) pair family is hit
 THOROUGH_CONFIGS="
